@@ -1,4 +1,5 @@
 import Proofs.Lemmas.Server
+import Proofs.Lemmas.ClientInv
 import Proofs.Props.C10
 /-!
   C08 — stream ids unique and increasing; one RPC, one handler invocation
@@ -172,6 +173,33 @@ theorem C08_dispatch (services : List (Method.Name × Method.ServiceDesc)) (n sv
                   · subst h; simp at hy
                   · exact ih (i + 1) h
             exact this _ 0 hmem hu
+
+/-! ### client side: allocation -/
+
+/-- **Client ids are unique and strictly increasing** over every history of
+    client stimuli (calls of any RPC, frames from any peer, ticks, closes), as
+    long as the 63-bit counter has not been exhausted (`xs.length < 2^63 - 1`;
+    after that the code refuses new streams: `IdRules.allocate`). -/
+theorem C08_client_ids_increasing (cfg : CCfg) (xs : List (CStim α))
+    (hlen : (xs.length : Int) < IdRules.maxInt64) :
+    (Proofs.ClientInv.ids (Cli.run cfg (Cli.start cfg) xs).1).Pairwise (· < ·) ∧
+    ∀ i ∈ Proofs.ClientInv.ids (Cli.run cfg (Cli.start cfg) xs).1,
+      i ≤ (Cli.run cfg (Cli.start cfg) xs).1.lastStreamID :=
+  Proofs.ClientInv.C08_client_ids_increasing cfg xs hlen
+
+/-- **Each RPC begins with its new-stream frame**: a successful `newStream`
+    takes the next id, its first emitted frame is the `new_stream` frame for
+    that id (method, metadata, negotiated revision, advertised window), and
+    everything it emits is tagged with that id. -/
+theorem C08_client_new_stream_first (cfg : CCfg) (c : Cli α) (cs ss : Bool) (method : List Nat) (md : MD)
+    (timeout : Option Nat) (cancelled : Bool) (sid : Sid)
+    (h : (c.newStream cfg cs ss method md timeout cancelled).2.2 = some sid)
+    (hlt : c.lastStreamID < IdRules.maxInt64) (h0 : 0 ≤ c.lastStreamID) :
+    sid = c.lastStreamID + 1 ∧
+    (c.newStream cfg cs ss method md timeout cancelled).2.1.frames.head? = some (sid, .newStream method md c.rev cfg.W) ∧
+    (∀ f ∈ (c.newStream cfg cs ss method md timeout cancelled).2.1.frames, f.1 = sid) :=
+  let r := Proofs.ClientInv.client_newStream_ok cfg c cs ss method md timeout cancelled sid h hlt h0
+  ⟨r.1, r.2.1, r.2.2.1⟩
 
 -- non-vacuity: "/v.S/BD" dispatches to the stream descriptor named "BD", "v.S/U" to the unary one
 example :
